@@ -10,6 +10,10 @@ Require Import PyBase Solver.
 Open Scope Z_scope.
 
 Definition sid := nat.                       (* submodel identifiers (dictionary keys) *)
+(* the identifier '_': get_check_values files the LINKER's own check values under the key '_' in the same dictionary as the
+   submodels' (keyed by their ids), so a selected submodel whose id is '_' overwrites the linker's entry (kept finding
+   convergence|submodel-id-underscore-shadows-linker; fix f5ef8bd only refuses an id equal to the linker's NAME) *)
+Definition us_id : sid := 4001%nat.
 
 Inductive levent : Type :=
 | LPre (t : Z)                               (* linker.solve_t_before *)
@@ -85,10 +89,18 @@ Section Linker.
           end
         else subs_check ids t r
     end.
+  (* a selected submodel is keyed '_': its entry replaces the linker's own in the dictionary of check values *)
+  Definition us_shadow (ids : list sid) (s : lstate) : bool :=
+    selected ids us_id && existsb (fun ic => Nat.eqb (fst ic) us_id) (l_subs s).
+  (* (the dictionary keeps the '_' key in first place; the order of the vectors is immaterial to conv_all as long as the
+     current and the previous values are listed alike, so the submodels' vectors are left in insertion order here) *)
   Definition get_check_values (ids : list sid) (t : Z) (s : lstate) : list (list num) + exn :=
     match comp_check (l_core s) t with
     | inr e => inr e
-    | inl x => match subs_check ids t (l_subs s) with inr e => inr e | inl xs => inl (x :: xs) end
+    | inl x => match subs_check ids t (l_subs s) with
+               | inr e => inr e
+               | inl xs => inl (if us_shadow ids s then xs else x :: xs)
+               end
     end.
 
   (* all(np.all(np.abs(current[k] - previous[k]) < tol) for k in current) *)
